@@ -371,7 +371,7 @@ func at(s []uint32, i int) any {
 }
 
 func init() {
-	pb.Register("roaring_set", pb.Options{Base: 500,
+	pb.Register("roaring_set", pb.Options{Twins: 3, Base: 500,
 		Required: []string{"dense bucket", "sparse+dense mixed", "bucket emptied", "remove from dense", "bucket crossed 4096", ">= 2 buckets enumerated", "two enumerations alive at once", "bucket re-added after being emptied", "dense bucket emptied"},
 		Rule:     "zero-value bitmap, 1-5 (thorough 8) bucket keys biased to 0/1/0x7fff/0xffff, <= 40 rules: single Add/Remove/Contains and bulk rules (addRun/removeRun with strides incl. descending, removeBucket, fillTo 4094..4098/5000) expanded into individually checked calls, enumerations by Iter, Range and All (early stop); oracle: map model, Len after every rule, each enumeration equals the full sorted member list; non-trivial = enumeration over >= 2 non-empty buckets after a bucket crossed the 4096 threshold or was emptied and re-added"},
 		genRoar, runRoar)
